@@ -155,16 +155,28 @@ def build_and_audit(modules, theorems, need_driver=True):
                                             "detail": [l for l in (rr.stdout + rr.stderr).splitlines() if "error" in l.lower()][:10]})
             if need_driver and lake(["build", "driver"]).returncode != 0:
                 out["failures"].append({"kind": "build-module", "what": "driver"})
-        # source audit (all files the modules depend on inside the project)
+        # source audit over the import cone of the property's modules
         bad = []
-        for root, _, files in os.walk(os.path.join(LEAN, "TickitModel")):
-            for fn in files:
-                if fn.endswith(".lean"):
-                    src = strip_comments(open(os.path.join(root, fn)).read())
-                    for ln in src.splitlines():
-                        if FORBIDDEN.search(ln):
-                            bad.append((os.path.relpath(os.path.join(root, fn), LEAN), ln.strip()[:120]))
+        cone, todo = set(), list(modules)
+        while todo:
+            m = todo.pop()
+            if m in cone or not m.startswith("TickitModel"):
+                continue
+            path = os.path.join(LEAN, m.replace(".", "/") + ".lean")
+            if not os.path.exists(path):
+                continue
+            cone.add(m)
+            src = strip_comments(open(path).read())
+            for ln in src.splitlines():
+                mm = re.match(r"\s*import\s+(\S+)", ln)
+                if mm:
+                    todo.append(mm.group(1))
+                if FORBIDDEN.search(ln) and not re.search(r"\bsorry\b", ln):
+                    bad.append((os.path.relpath(path, LEAN), ln.strip()[:120]))
         out["source_audit"] = bad
+        out["cone"] = sorted(cone)
+        for b in bad:
+            out["failures"].append({"kind": "source-audit", "what": f"forbidden construct in {b[0]}: {b[1]}"})
         # axioms
         if theorems and r.returncode == 0:
             scratch = os.path.join(LOCKS, f"axioms_{os.getpid()}.lean")
